@@ -28,7 +28,7 @@ ASSUMPTIONS = [
     "the tasker whose own action raised is no longer scheduled (its generator is dead); the abort/exit clauses are asserted for the OTHER taskers "
     "(what happens to the raiser's entered frames is reported in evidence as an observation, DESIGN section 3 C03)",
     "programs: templates T1 (two framers, nested frames, one stops itself, one bids stop all), T2 (three framers incl. an inactive one started by bid, abort bid), "
-    "T3 (single framer that never stops until the crash)",
+    "T3 (single framer that never stops until the crash), T4 (a boss stops and restarts a worker with a three-deep outline before the run ends)",
     "symbolic: crash call number in [0,M] (0 = no crash), tick goals of the bids in [0,4]; selector: exception kind, interrupt site",
     "integer store time; recording runner double wraps each tasker.runner (send only)",
 ]
@@ -86,7 +86,24 @@ def T3():
     ]) + "\n"
 
 
-TEMPLATES = dict(T1=T1, T2=T2, T3=T3)
+def T4():
+    """a boss stops and restarts a worker with a nested outline (the second life starts in the same frame), then the run
+    ends by crash / stop: the exit-all of the second life must again be bottom-up"""
+    return "\n".join([
+        "house h",
+        "  framer boss be active first b0",
+        "    frame b0", "      do verif raise at recur", "      go b1 if recurred >= g0",
+        "    frame b1", "      bid stop wk", "      do verif raise at recur", "      go b2 if recurred >= 1",
+        "    frame b2", "      bid start wk", "      do verif raise at recur", "      go b3 if recurred >= g1",
+        "    frame b3", "      bid stop all",
+        "  framer wk be active first leaf",
+        "    frame top", "      do verif record at enter", "      do verif record at exit",
+        "    frame mid in top", "      do verif record at enter", "      do verif record at exit",
+        "    frame leaf in mid", "      do verif record at enter", "      do verif record at exit", "      do verif raise at recur",
+    ]) + "\n"
+
+
+TEMPLATES = dict(T1=T1, T2=T2, T3=T3, T4=T4)
 
 
 class Rec:
@@ -219,7 +236,7 @@ def h(sym, template, kind, site, M):
 def obligations(tier):
     out = []
     M = 6 if tier == "quick" else 12
-    temps = ["T1", "T2", "T3"]
+    temps = ["T1", "T2", "T3", "T4"]
     for t in temps:
         if t != "T3":
             out.append(Ob("%s/no-crash" % t, h, dict(template=t, kind=0, site="action", M=M), budget=600, covers=["normal-end"],
